@@ -488,6 +488,27 @@ func runLocalRoundOnce(c *Ctx, round int, g c12Cfg, reqs []c12Req, ovrs []*c12Ov
 			return // do not let it meet other jobs
 		}
 	}
+	// What Enqueue will be handed must not be negative (Props.C12.normalized_amounts_fit): a
+	// negative Acquire corrupts the semaphore's books and the next Release of anybody panics
+	// inside the job manager's own goroutine, which would take the whole run down with it.
+	for _, j := range jobs {
+		jobDef := j.req.resources()
+		fq := fmt.Sprintf("ID.c12.PIPE.ST%d", j.id)
+		res := core.VerifNodeJobReqs(ljm, ljm, ov, fq, true, nil, &jobDef, core.STAGE_TYPE_CHUNK)
+		if res.Threads < 0 || res.MemGB < 0 || (res.VMemGB < 0 && limits[2] > 0) {
+			in2 := map[string]interface{}{}
+			for k2, v2 := range input {
+				in2[k2] = v2
+			}
+			in2["job"] = reqDesc[j.id]
+			in2["resources_handed_to_Enqueue"] = res
+			r.violate(Violation{Kind: "property", Key: "C12:local:negative-reservation",
+				What:   fmt.Sprintf("job %d: Node.setChunkJobReqs / GetSystemReqs hand Enqueue a negative amount (threads %g, mem %g GB, vmem %g GB): the job would hold a negative reservation", j.id, res.Threads, res.MemGB, res.VMemGB),
+				Input:  in2,
+				Expect: "0 <= every amount <= its limit (Props.C12.normalized_amounts_fit)"})
+			return // do not let it meet other jobs
+		}
+	}
 	for _, j := range jobs {
 		script := fmt.Sprintf("echo S %d >> %s; while [ ! -e %s/go ]; do sleep 0.01; done; echo E %d >> %s", j.id, logPath, j.dir, j.id, logPath)
 		jobDef := j.req.resources()
@@ -546,12 +567,27 @@ func runLocalRoundOnce(c *Ctx, round int, g c12Cfg, reqs []c12Req, ovrs []*c12Ov
 		var queued int
 		deadline := time.Now().Add(c12Wait)
 		ok := false
+		deadlocked := 0
 		for {
 			running, done, failed, queued = observe()
 			transit := len(jobs) - len(running) - len(done) - len(failed) - queued
 			if transit == 0 && (len(running) > 0 || len(done)+len(failed) == len(jobs)) {
 				ok = true
 				break
+			}
+			// a deadlock needs no waiting: nothing runs, nobody is in transit, every job that is
+			// not over is blocked in ResourceSemaphore.Acquire (goroutine dump: every goroutine
+			// that is inside Enqueue is in `chan receive` there) — nobody is left to release
+			if transit == 0 && len(running) == 0 && queued > 0 && queued == len(jobs)-len(done)-len(failed) {
+				if tot, pk := c12rEnqueueGoroutines(); tot == pk && pk >= queued {
+					if deadlocked++; deadlocked >= 3 {
+						break
+					}
+				} else {
+					deadlocked = 0
+				}
+			} else {
+				deadlocked = 0
 			}
 			if time.Now().After(deadline) {
 				break
@@ -694,6 +730,45 @@ func runLocalRoundOnce(c *Ctx, round int, g c12Cfg, reqs []c12Req, ovrs []*c12Ov
 				}
 			}
 			js = append(js, fmt.Sprintf("%d:%s", j.id, strings.Join(am, ",")))
+		}
+		// the hypothesis `Sane c` of the clamping theorems, and the model's own account of which
+		// semaphores exist with which sizes / which amounts a job acquires on them
+		// (Martian.Semaphore.localSizes / localAmounts, Props.C12.normalized_amounts_fit_every_configuration);
+		// here the process semaphore is the hook's fresh one: everything is left for jobs
+		{
+			procs := "-"
+			if sems[3] != nil {
+				procs = strconv.FormatInt(limits[3], 10)
+			}
+			var reqs [][]string
+			for _, j := range jobs {
+				reqs = append(reqs, []string{"C12.cfgsizes", g.String(), procs,
+					fmt.Sprintf("%d,%d,%d,%d", j.amts[0], j.amts[1], j.amts[2], j.amts[3])})
+			}
+			for i, rep := range c.Drv.AskBatch(reqs) {
+				f := strings.Split(rep, "|")
+				if len(f) != 3 {
+					r.violate(Violation{Kind: "correspondence", Key: "C12:local:driver-bad-op", What: "C12.cfgsizes: " + rep, Input: input,
+						Broken: "correspondence C12.cfgsizes"})
+					break
+				}
+				if f[0] == "1" {
+					r.hist("local_cfg_Sane_holds")
+				} else {
+					r.hist("local_cfg_Sane_fails")
+					r.violate(Violation{Kind: "correspondence", Key: "C12:local:cfg-not-sane",
+						What:  "a generated configuration does not satisfy `Sane` (hypothesis of clamp_le_limits / normalized_amounts_fit_every_configuration): the round is not covered by the theorems",
+						Input: input, Broken: "hypothesis Sane of Props.C12.clamp_le_limits"})
+					break
+				}
+				am := js[i][strings.IndexByte(js[i], ':')+1:]
+				if f[1] != strings.Join(sizes, ",") || f[2] != am {
+					r.violate(Violation{Kind: "correspondence", Key: "C12:local:sizes-model-mismatch",
+						What:  fmt.Sprintf("semaphores that exist / amounts acquired on them: real sizes %s amounts %s, model localSizes %s localAmounts %s", strings.Join(sizes, ","), am, f[1], f[2]),
+						Input: input, Broken: "correspondence C12.cfgsizes (localSizes / localAmounts vs setupSemaphores / Enqueue)"})
+					break
+				}
+			}
 		}
 		rep := c.Drv.Ask("C12.sys", strings.Join(sizes, ","), strings.Join(js, ";"))
 		_, ended := readLog(logPath)
